@@ -94,6 +94,8 @@ def _judge(method, path_info, hrefs=None):
     for (kind, raw, norm) in w.log:
         if not isinstance(raw, str) or not raw.startswith("/"):
             continue  # repository-internal step recorded with the repo path (already checked when opened)
+        if kind == "read-failed":
+            continue  # an open() that failed (directory / missing): no user data was read
         p = norm if norm is not None else _lexical(raw)
         if not _inside(p):
             return False, "escape"
@@ -112,6 +114,11 @@ def _judge(method, path_info, hrefs=None):
     refused = sc not in ("2xx",) and after == before
     if norm == raw or norm + "/" == raw:
         return True, "normal:" + sc
+    # the as-if-normalised clause of the statement is about requests whose path WOULD LEAVE the root when taken
+    # literally; paths that stay inside (inner dot segments, doubled slashes) only owe containment
+    literal = Wm.MPosixpath.normpath(ROOT + "/" + raw.lstrip("/"))
+    if _inside(literal):
+        return True, "inner-dots:" + sc
     if refused:
         return True, "dotted:refused"
     w2, before2, res2 = _run(method, norm, hrefs)
@@ -119,24 +126,28 @@ def _judge(method, path_info, hrefs=None):
     return same, "dotted:as-normalised"
 
 
-def body_segments(segs):
+CONTAINERS = ["", "/user", "/user/calendars", "/user/calendars/cal", "/user/contacts/ab"]
+
+
+def body_segments(segs, base=0):
     part = ctx.PART
     if isinstance(part, (tuple, list)):
         part, ROOT_STORE[0] = part[0], (part[1] == "rootstore")
     else:
         ROOT_STORE[0] = False
     method = METHODS[part]
-    path_info = "/" + "/".join(SEGS[i] for i in segs)
+    # an existing container (so that the adversarial tail is reached under every real parent) + the tail
+    path_info = CONTAINERS[base] + "/" + "/".join(SEGS[i] for i in segs)
     ok, cls = _judge(method, path_info)
     return (ok, cls)
 
 
-def h_segments(segs: List[int]) -> bool:
+def h_segments(segs: List[int], base: int) -> bool:
     """
-    pre: len(segs) <= ctx.b.nseg and all(0 <= i < len(SEGS) for i in segs)
+    pre: len(segs) <= ctx.b.nseg and all(0 <= i < len(SEGS) for i in segs) and 0 <= base < len(CONTAINERS)
     post: _
     """
-    return run(body_segments, segs)
+    return run(body_segments, segs, base)
 
 
 def body_raw(path_info):
@@ -226,14 +237,15 @@ def real_segments(args, part):
     rs = False
     if isinstance(part, (tuple, list)):
         part, rs = part[0], part[1] == "rootstore"
-    return _real(METHODS[part], "/" + "/".join(SEGS[i] for i in args[0]), root_store=rs)
+    base = args[1] if len(args) > 1 else 0
+    return _real(METHODS[part], CONTAINERS[base] + "/" + "/".join(SEGS[i] for i in args[0]), root_store=rs)
 
 
 def real_raw(args, part):
     return _real(METHODS[part], args[0])
 
 
-_B = {"quick": {"nseg": 4, "rlen": 5, "klen": 5}, "thorough": {"nseg": 6, "rlen": 7, "klen": 7}}
+_B = {"quick": {"nseg": 3, "rlen": 5, "klen": 5}, "thorough": {"nseg": 5, "rlen": 7, "klen": 7}}
 _ENC = ["xandikos.web.XandikosBackend.get_resource", "xandikos.web.XandikosBackend._map_to_file_path",
         "xandikos.web.XandikosBackend.create_collection", "xandikos.webdav.WebDAVApp._get_resource_from_environ",
         "xandikos.webdav.MkcolMethod.handle", "xandikos.caldav.MkcalendarMethod.handle",
@@ -246,7 +258,8 @@ _ENC = ["xandikos.web.XandikosBackend.get_resource", "xandikos.web.XandikosBacke
 
 HARNESSES = [
     Harness("segments", h_segments, body_segments,
-            classes=[("dotted:as-normalised", 0), ("dotted:refused", 4), ("normal:2xx", 4), ("normal:404", 0)],
+            classes=[("dotted:as-normalised", 0), ("dotted:refused", 4), ("normal:2xx", 4), ("normal:404", 0),
+                     ("inner-dots:2xx", 0)],
             parts={"quick": list(range(len(METHODS))) + [(3, "rootstore"), (1, "rootstore"), (4, "rootstore")],
                    "thorough": list(range(len(METHODS))) + [(i, "rootstore") for i in range(len(METHODS))]},
             bounds=_B, budget={"quick": 90, "thorough": 600},
